@@ -176,6 +176,9 @@ def norm_cmp(op, ea, eb):
         for x, k in ((ea, kb), (eb, ka)):
             if k in (0, 1) and isinstance(x, E) and x.w == 1 and x.op != 'const':
                 return x if (k == 1) == (op == '==') else invert(x)
+            if k == 0 and isinstance(x, E) and x.op == 'cat' and len(x.args) > 1 and all(isinstance(a, E) and a.w == 1 for a in x.args):
+                anyset = E('|', x.args, w=1)               # Cat(a, b, c) != 0 is a | b | c
+                return anyset if op == '!=' else invert(anyset)
         return E(op, (ea, eb), w=1)
     # put the constant on the right
     if ka is not None and kb is None:
@@ -1002,6 +1005,7 @@ def make_signal(ip, args, kwargs, node, like=None):
                  loc=ip.loc(node), shape_src=shape_src, kind='signal')
     si.signed = sg
     si.shape_val = shape
+    si.shape_of_expr = getattr(shape, 'shape_of_expr', None)       # Signal(expr.shape()): as wide as that expression
     si.reset_less = bool(concrete(kwargs.get('reset_less', False)) is True)
     nm = kwargs.get('name')
     if isinstance(nm, str):
@@ -1214,6 +1218,10 @@ def value_method(ip, meth, sv, args, kwargs, node):
     if meth in ('any', 'all', 'bool', 'xor'):
         if e.w == 1 and meth in ('any', 'all', 'bool'):
             return e
+        if meth in ('any', 'bool') and e.op == 'cat' and e.args and all(isinstance(a, E) and a.w == 1 for a in e.args):
+            return E('|', e.args, w=1) if len(e.args) > 1 else e.args[0]      # Cat(a, b, c).any() is a | b | c
+        if meth == 'all' and e.op == 'cat' and e.args and all(isinstance(a, E) and a.w == 1 for a in e.args):
+            return E('&', e.args, w=1) if len(e.args) > 1 else e.args[0]
         if meth in ('any', 'bool') and e.w is not None:
             return E('!=', (E('const', val=0), e), w=1)        # same canonical form as `x != 0`
         return E('call', (meth, e), w=1)
@@ -1242,6 +1250,7 @@ def value_method(ip, meth, sv, args, kwargs, node):
         o.w = e.w
         o.attrs['width'] = e.w if e.w is not None else Unknown('width')
         o.attrs['signed'] = False
+        o.shape_of_expr = e.canon()
         return o
     return E('call', (meth, e) + tuple(as_expr(ip, a) for a in args))
 
@@ -1891,8 +1900,12 @@ def _h_record_connect(ip, sv, args, kwargs, node):
     return Unknown('call Record.connect')
 
 
+def _h_value_cast(ip, sv, args, kwargs, node):
+    return as_expr(ip, args[0]) if args else Unknown('Value.cast()')
+
+
 _HANDLERS = {
-    'Record.connect': _h_record_connect,
+    'Record.connect': _h_record_connect, 'Value.cast': _h_value_cast,
     'Module': _h_module, 'Signal': _h_signal, 'Signal.like': _h_signal_like, 'Const': _h_const, 'C': _h_const,
     'Cat': _h_cat, 'Mux': _h_mux, 'Repl': _h_repl, 'Array': _h_array, 'Record': _h_record,
     'Record.like': _h_record_like, 'Layout': _h_layout, 'Memory': _h_memory, 'Instance': _h_instance,
